@@ -312,6 +312,17 @@ def run_case(case, modules):
     obs = Obs()
     ctx = {'expect': case.get('expect')}
     settings_mod.Settings._the_config['sleep_time'] = case['tick']
+    if case.get('tick_from_file'):
+        # the tick length arrives the way a configuration file delivers it (`run.py -c file.ini`,
+        # BARDOLPH_INI): through Settings.apply_file, i.e. as text
+        import tempfile
+        with tempfile.NamedTemporaryFile('w', suffix='.ini', delete=False) as f:
+            f.write('[clock]\nsleep_time: {}\n'.format(repr(float(case['tick']))))
+        try:
+            from_file = settings_mod.using({}).apply_file(f.name)._config['sleep_time']
+        finally:
+            os.unlink(f.name)
+        settings_mod.Settings._the_config['sleep_time'] = from_file
     sched = vt.Sched(policy=make_policy(case, None), t0=case['t0'], trace=TRACE, namer=namer,
                      max_steps=case.get('max_steps', 60000), watchdog_s=60.0)
     sched.repo_root = REPO
@@ -507,6 +518,12 @@ def dy(rng, lo, hi, den):
     return rng.randint(int(lo * den), int(hi * den)) / den
 
 
+def hash_mod(idx, m):
+    """the number at the end of a case id (`clock-17`) modulo m"""
+    digits = re.sub(r'\D', '', str(idx))
+    return int(digits or 0) % m
+
+
 def gen_clock_case(rng, idx):
     tick = rng.choice([0.125, 0.25, 0.25, 0.5, 1.0, 0.375])
     scale = rng.choice([1, 1, 1, 4, 64])        # large delays with large ticks
@@ -552,7 +569,8 @@ def gen_clock_case(rng, idx):
         tick = rng.choice([1.0, 2.0, 7.5, 15.0])
     if any(o[0] == 'until' and re.search(r':\d\*', o[1]) for o in ops) and tick < 7.5:
         tick = rng.choice([7.5, 15.0])
-    return {'mode': 'clock', 'tick': tick, 't0': t0, 'ops': ops, 'id': idx}
+    return {'mode': 'clock', 'tick': tick, 't0': t0, 'ops': ops, 'id': idx,
+            'tick_from_file': hash_mod(idx, 3) == 0}
 
 
 def gen_script_case(rng, idx):
@@ -614,6 +632,7 @@ def gen_script_case(rng, idx):
     if has_at and tick < 1.0:
         tick = rng.choice([1.0, 2.0, 7.5])
     return {'mode': 'script', 'tick': tick, 't0': t0, 'stmts': stmts, 'costs': costs,
+            'tick_from_file': hash_mod(idx, 3) == 1,
             'text': script_text(stmts), 'id': idx, 'raw': any(s == ('units', 'raw') for s in stmts)}
 
 
